@@ -508,8 +508,15 @@ class Executor:
         for kw in n.keywords:
             if kw.arg is None:
                 d = self.eval(kw.value, fr)
-                for k, v in P.dict_items_concrete(self, d):
-                    kwargs[k] = v
+                try:
+                    for k, v in P.dict_items_concrete(self, d):
+                        kwargs[k] = v
+                except OutOfSubset:
+                    from . import loops
+                    m = loops.map_of(self, d)
+                    if m is None:
+                        raise
+                    kwargs['**'] = m
             else:
                 kwargs[kw.arg] = self.eval(kw.value, fr)
         temps = [a for a in list(args) + list(kwargs.values()) if type(a).__name__ == 'FileHandle' and not a.closed]
@@ -601,7 +608,11 @@ class Executor:
                     raise RaiseEx(ExcVal('TypeError', origin=f'missing argument {nm} of {fv.name}'))
         if len(args) > npos:
             if a.vararg:
-                loc[a.vararg.arg] = tuple(args[npos:])
+                extra = args[npos:]
+                if len(extra) == 1 and isinstance(extra[0], P.StarPack):
+                    loc[a.vararg.arg] = extra[0].seq        # f(*xs) with xs of symbolic length
+                else:
+                    loc[a.vararg.arg] = tuple(extra)
             else:
                 raise RaiseEx(ExcVal('TypeError', origin=f'too many positional arguments for {fv.name}'))
         elif a.vararg:
@@ -615,7 +626,11 @@ class Executor:
                 raise RaiseEx(ExcVal('TypeError', origin=f'missing kw-only argument {k.arg}'))
         if kwargs:
             if a.kwarg:
-                d = self.run.alloc(HDict(items=dict(kwargs)))
+                pack = kwargs.pop('**', None)
+                if pack is not None and not kwargs:
+                    d = self.run.alloc(HDict(sym=pack))     # f(**kw) with a symbolic mapping
+                else:
+                    d = self.run.alloc(HDict(items=dict(kwargs)))
                 loc[a.kwarg.arg] = d
             else:
                 raise RaiseEx(ExcVal('TypeError', origin=f'unexpected keyword {list(kwargs)} for {fv.name}'))
